@@ -46,12 +46,15 @@ ASSUMPTIONS = ['numpy indexing of the reference x/y arrays defines the expected 
 
 SHAPES = [(), (0,), (1,), (3,), (2, 3), (2, 1, 3), (1, 3), (3, 1)]
 # kind -> (x is int, y is int)
+# i8big: int64 values beyond 2^53 (exact in int64, not in float64); used for construction, indexing, arithmetic and copies
 KIND_INT = {'f8': (False, False), 'i8': (True, True), 'list': (False, False), 'listint': (True, True),
-            'mixed': (True, False), 'npscalar': (False, True)}
-KINDS_QUICK = ['f8', 'i8']
-KINDS_ALL = ['f8', 'i8', 'list', 'listint', 'mixed', 'npscalar']
+            'mixed': (True, False), 'npscalar': (False, True), 'i8big': (True, True)}
+KINDS_QUICK = ['f8', 'i8', 'i8big']
+KINDS_ALL = ['f8', 'i8', 'list', 'listint', 'mixed', 'npscalar', 'i8big']
+BIG = 2 ** 53
 CENTRES = [[0, 0], [1.5, -2.0], [-7.25, 300.0]]
-BASE_ANGLES = [(0.0, 'deg'), (30.0, 'deg'), (90.0, 'deg'), (-123.4, 'deg'), (725.0, 'deg'), (1.0, 'rad')]
+# 180 / -540 deg: exact half turns (sin evaluates to ~1e-16, the rotation is the point reflection about the centre)
+BASE_ANGLES = [(0.0, 'deg'), (30.0, 'deg'), (90.0, 'deg'), (-123.4, 'deg'), (725.0, 'deg'), (1.0, 'rad'), (180.0, 'deg'), (-540.0, 'deg')]
 
 
 # ------------------------------------------------- numpy-free reference model --
@@ -126,6 +129,12 @@ def _vals(shape, which, isint, base=0):
     return [-200 + 32 * k for k in range(n)] if isint else [-200.5 + 32.0 * k for k in range(n)]
 
 
+def _shift(nested, d):
+    if isinstance(nested, list):
+        return [_shift(v, d) for v in nested]
+    return nested + d
+
+
 def _arr(nested, shape, isint):
     return np.array(flat(nested) if shape != () else [nested],
                     dtype=np.int64 if isint else np.float64).reshape(shape)
@@ -139,6 +148,9 @@ class Ctx:
         self.ix, self.iy = KIND_INT[self.kind]
         self.xn = nest(_vals(self.sx, 'x', self.ix), self.sx) if _size(self.sx) else nest([], self.sx)
         self.yn = nest(_vals(self.sy, 'y', self.iy), self.sy) if _size(self.sy) else nest([], self.sy)
+        if self.kind == 'i8big':
+            self.xn = _shift(self.xn, BIG - 20)          # 2^53 + 1, 2^53 + 8, ...
+            self.yn = _shift(self.yn, -BIG + 28)         # -2^53 - 3, -2^53 + 8, ...
         self.shape = bshape(self.sx, self.sy)
         if self.shape is not None:
             self.X = bcast(self.xn, self.sx, self.shape)
@@ -537,6 +549,8 @@ def check_arith(res, ctx, partners):
     shape = ctx.shape
     for sb, kb in partners:
         sb = tuple(sb)
+        if ctx.kind == 'i8big' and kb != 'i8':
+            continue        # int64 beyond 2^53 with a float partner: float arithmetic is not exactly invertible there
         case = ctx.case('arith', sb=list(sb), kb=kb)
         res.evaluations += 1
         a = ctx.mk()
@@ -823,12 +837,14 @@ def check_copy_eq(res, ctx):
             if b is not want:
                 _V(res, 'eq_wrong', case, f'{name} gave {r!r} for shape {shape}', want, repr(r))
     if ctx.size > 0:
+        # a difference far above the documented tolerance of == (relative 1e-5): 1 for the ordinary values, 2^40 at 2^53
+        step = 1 if ctx.kind != 'i8big' else 2 ** 40
         for comp, k in (('x', 0), ('y', ctx.size - 1)):
             gx, gy = list(ctx.fx), list(ctx.fy)
             if comp == 'x':
-                gx[k] = gx[k] + 1
+                gx[k] = gx[k] + step
             else:
-                gy[k] = gy[k] + 1
+                gy[k] = gy[k] + step
             q = PixCoord(_arr(nest(gx, shape), shape, ctx.ix), _arr(nest(gy, shape), shape, ctx.iy))
             for name, fn in (('p == q', lambda: p == q), ('q == p', lambda: q == p)):
                 ok, r = _call(res, fn)
@@ -1070,11 +1086,11 @@ def check_wcs(res, ctx, wspecs, origins, modes):
 def _tier(tier):
     if tier == 'quick':
         return dict(kinds=KINDS_QUICK, centres=[CENTRES[0], CENTRES[2]],
-                    singles=_angle_specs([BASE_ANGLES[1], BASE_ANGLES[3], BASE_ANGLES[5]],
+                    singles=_angle_specs([BASE_ANGLES[1], BASE_ANGLES[3], BASE_ANGLES[5], BASE_ANGLES[6]],
                                          [('deg', 'quantity'), ('rad', 'angle')]),
-                    pair_angles=_angle_specs([BASE_ANGLES[1], BASE_ANGLES[3], BASE_ANGLES[5]],
+                    pair_angles=_angle_specs([BASE_ANGLES[1], BASE_ANGLES[3], BASE_ANGLES[5], BASE_ANGLES[2]],
                                              [('deg', 'quantity'), ('rad', 'angle')]),
-                    partner_kinds=['f8'])
+                    partner_kinds=['f8', 'i8'])
     return dict(kinds=KINDS_ALL, centres=CENTRES,
                 singles=_angle_specs(BASE_ANGLES, [('deg', 'quantity'), ('deg', 'angle'), ('rad', 'quantity'),
                                                    ('rad', 'angle')]),
@@ -1082,8 +1098,8 @@ def _tier(tier):
                 partner_kinds=['f8', 'i8'])
 
 
-def _kinds_for(sx, sy, kinds):
-    return [k for k in kinds if k != 'npscalar' or () in (tuple(sx), tuple(sy))]
+def _kinds_for(sx, sy, kinds, wcs=False):
+    return [k for k in kinds if (k != 'npscalar' or () in (tuple(sx), tuple(sy))) and not (wcs and k == 'i8big')]
 
 
 def shards(tier, seed):
@@ -1097,7 +1113,7 @@ def shards(tier, seed):
         for sy in SHAPES:
             if bshape(sx, sy) is None:
                 continue
-            ks = _kinds_for(sx, sy, T['kinds'])
+            ks = _kinds_for(sx, sy, T['kinds'], wcs=True)
             for i in range(0, len(ks), 2):
                 out.append({'kind': 'wcs', 'sx': list(sx), 'sy': list(sy), 'kinds': ks[i:i + 2]})
     return out
@@ -1125,7 +1141,8 @@ def run_shard(shard, tier, seed):
                 check_iter(res, ctx)
                 check_arith(res, ctx, partners)
                 check_badops(res, ctx)
-                check_rotate(res, ctx, T['centres'], T['singles'], pairs)
+                if kind != 'i8big':
+                    check_rotate(res, ctx, T['centres'], T['singles'], pairs)
                 check_copy_eq(res, ctx)
             res.sample({'sx': sx, 'sy': sy, 'kinds': _kinds_for(sx, sy, T['kinds']),
                         'result_shape': None if bshape(sx, sy) is None else list(bshape(sx, sy))})
